@@ -112,6 +112,19 @@ def check(run):
             seg_n = len(srecs)
             for r in srecs:
                 outcomes[(r.get("entry"), r.get("outcome"))] = outcomes.get((r.get("entry"), r.get("outcome")), 0) + 1
+                if r.get("outcome") == "timeout" and r.get("entry") and r.get("input") is not None:
+                    # a wall-clock timeout (5 s in-process) inside a loaded run says little: replay the case alone in a child
+                    # process (up to twice, 120 s each) and judge what that returns; only a case that still does not finish is a hang
+                    again = "timeout"
+                    for _ in range(2):
+                        rc1, out1, _e1 = vlib.harness("seg", ["malformed-child", r["entry"], r["input"]], run.seed, timeout=120)
+                        w = out1.strip().split("\n")[-1].strip() if out1.strip() else ""
+                        if rc1 != 124 and (w in ("ok", "err", "panic") or "out of memory" in _e1 or "cannot allocate" in _e1):
+                            again = w if w in ("ok", "err", "panic") else "oom"
+                            break
+                    replayed_timeouts.append({"id": "seg-%s" % r.get("id"), "origin": r.get("entry"), "alone": again})
+                    outcomes[(r.get("entry"), "timeout->" + again)] = outcomes.get((r.get("entry"), "timeout->" + again), 0) + 1
+                    r = dict(r, outcome=again)
                 if r.get("outcome") in ("panic", "timeout"):
                     findings.append({"id": "seg-%s" % r.get("id"), "entry": r.get("entry"), "outcome": r.get("outcome"), "input": r.get("input"),
                                      "what": "%s decoder %s (%s)" % (r.get("entry"), r.get("outcome"), r.get("what"))})
